@@ -92,6 +92,15 @@ def judge(ctx, stream, cases):
                            f"imports {sorted(internal[1] ^ internal_ref[1])[:5]}")
                 ext_nodes = {n for n in I[0] if not (ins(n) or n in anc)}
                 ext_imps = {(u, v) for (u, v) in I[1] if not ins(v)}
+                if not bad:
+                    # every external module is imported or is an ancestor package of an imported one; hierarchy = dotted extension
+                    targets = {v for (_, v) in ext_imps}
+                    phantom = {n for n in ext_nodes if not any(t == n or t.startswith(n + ".") for t in targets)}
+                    want_h = {(".".join(n.split(".")[:-1]), n) for n in I[0] if "." in n}
+                    if phantom:
+                        bad = f"external modules that are neither imported nor ancestors of an imported module: {sorted(phantom)[:5]}"
+                    elif I[2] != want_h:
+                        bad = f"hierarchy edges differ from dotted-name extension: {sorted(I[2] ^ want_h)[:5]}"
                 if not bad and xx and (ext_nodes or ext_imps):
                     bad = f"externals excluded, but the architecture contains {sorted(ext_nodes)[:5]} {sorted(ext_imps)[:5]}"
                 if not bad and not xx and exts is not None:
